@@ -28,7 +28,8 @@ def build_values(raw):
     if kind == "index":
         return pd.Index(vals, dtype="int64")
     if kind == "range":
-        return pd.RangeIndex(vals[0], vals[-1] + 1)
+        d = vals[1] - vals[0] if len(vals) > 1 else 1
+        return pd.RangeIndex(vals[0], vals[-1] + (1 if d > 0 else -1), d)
     raise AssertionError(kind)
 
 
@@ -44,7 +45,10 @@ def observe(raw, cut, start, alt=0):
     except Exception as e:  # cannot even build the input: machinery problem
         raise
     try:
-        fh = ForecastingHorizon(values, is_relative=bool(raw["rel"]))
+        if raw["rel"] and alt % 3 == 2:
+            fh = check_fh(values)      # the validation entry point users' raw horizons go through
+        else:
+            fh = ForecastingHorizon(values, is_relative=bool(raw["rel"]))
     except REJECT:
         return {"rej": True}
     except Exception as e:
@@ -102,9 +106,9 @@ def random_case(rng):
             kind = "list"
     elif r < 0.2:
         fault, kind = "frac", rng.choice(["list", "array"])
-    elif r < 0.3:
-        lo = rng.randint(-span, span)
-        vals, kind = list(range(lo, lo + n)), "range"
+    elif r < 0.3 and n >= 2:
+        lo, d = rng.randint(-span, span), rng.choice([1, 1, -1, 2, -3])
+        vals, kind = [lo + d * i for i in range(n)], "range"
     raw = {"kind": kind, "vals": vals, "rel": rng.random() < 0.5, "fault": fault}
     cut = rng.randint(-span, span)
     return raw, cut, cut - rng.randint(0, 50)
